@@ -378,9 +378,12 @@ def molecule_plan(chk: Check):
     add("rohf", "OH", spin=1, mf="rohf", trial="uhf", walker_type="uhf", chol_cut=1e-5)
     add("rohf-frozen", "OH", spin=1, mf="rohf", nfrozen=1, trial="uhf", walker_type="rhf", chol_cut=1e-6)
     add("uhf", "H3", spin=1, mf="uhf", trial="uhf", walker_type="uhf", chol_cut=1e-5)
-    add("ccsd-frozen", "LiH", cc="ccsd", nfrozen=1, trial="cisd", also_mf_trial="rhf", chol_cut=1e-6)
-    add("ccsd", "H4", cc="ccsd", trial="cisd", chol_cut=1e-5)
-    add("uccsd", "H3", spin=1, mf="uhf", cc="uccsd", trial="ucisd", walker_type="uhf", also_mf_trial="uhf", chol_cut=1e-5)
+    # CC hand-overs at tight thresholds: the t1*t1 part of the doubles is a 1e-5 effect
+    add("ccsd-frozen", "LiH", cc="ccsd", nfrozen=1, trial="cisd", also_mf_trial="rhf", chol_cut=1e-7)
+    add("ccsd", "H4", cc="ccsd", trial="cisd", chol_cut=1e-7)
+    # 6-31g: two alpha electrons and four alpha virtuals, so same-spin doubles exist
+    add("uccsd", "H3", basis="6-31g", spin=1, mf="uhf", cc="uccsd", trial="ucisd", walker_type="uhf", also_mf_trial="uhf",
+        chol_cut=1e-7)
     add("df", "H4", df=True, chol_cut=1e-5)
     add("custom-basis", "H4", basis_coeff="lowdin", chol_cut=1e-5)
     add("custom-integrals", "H4", integrals="custom", basis_coeff="mo", chol_cut=1e-6)
